@@ -812,6 +812,25 @@ class Model(Object):
                             )
                         )
 
+                    # Coefficients of the two variables in constraints other than the
+                    # mass balances (which are rebuilt from the stoichiometry).
+                    custom_coefs = {}
+                    for constraint in self.constraints:
+                        if constraint.name in self.metabolites:
+                            continue
+                        coefs = {
+                            var.name: coef
+                            for var, coef in constraint.get_linear_coefficients(
+                                [forward, reverse]
+                            ).items()
+                            if coef != 0
+                        }
+                        if coefs:
+                            custom_coefs[constraint.name] = coefs
+                    if custom_coefs:
+                        context(
+                            partial(self._restore_constraint_coefficients, custom_coefs)
+                        )
                     context(partial(self._populate_solver, [reaction]))
                     context(partial(setattr, reaction, "_model", self))
                     context(partial(self.reactions.add, reaction))
@@ -866,6 +885,24 @@ class Model(Object):
         self.solver.objective.set_linear_coefficients(
             {self.variables[name]: coef for name, coef in coefficients.items()}
         )
+
+    def _restore_constraint_coefficients(
+        self, coefficients: Dict[str, Dict[str, float]]
+    ) -> None:
+        """Set coefficients of constraints by constraint and variable name.
+
+        Used to undo the removal of reactions.
+
+        Parameters
+        ----------
+        coefficients: dict
+            For each constraint name the variable names and coefficients to set.
+        """
+        for constraint_name, coefs in coefficients.items():
+            if constraint_name in self.constraints:
+                self.constraints[constraint_name].set_linear_coefficients(
+                    {self.variables[name]: coef for name, coef in coefs.items()}
+                )
 
     def add_groups(self, group_list: Union[str, Group, List[Group]]) -> None:
         """Add groups to the model.
